@@ -17,12 +17,15 @@ def listing(m):
     return "".join(lines)
 
 
-def compile_one(src, opts, reuse=None):
+def compile_one(src, opts, reuse=None, later=()):
     buf = io.StringIO()
     try:
         with contextlib.redirect_stdout(buf), contextlib.redirect_stderr(buf):
             c = reuse or Compiler.Compiler()
             r = c.Compile(src, dict(opts))
+        # `later`: sources compiled AFTER the target, before its result is read -- a result must not change once it has been returned
+        for h in later:
+            compile_one(h["src"], h.get("opts", {}))
         if r is None:
             return {"accept": False, "how": {"exc": None}}
         out = {"accept": True, "listing": listing(r.IRModule), "imports": sorted(r.IRModule.Imports), "globals": list(r.IRModule.Globals.keys())}
@@ -41,7 +44,7 @@ def run(job):
     shared = Compiler.Compiler() if job.get("reuse_compiler") else None
     for h in job.get("history", []):
         compile_one(h["src"], h.get("opts", {}), shared)
-    return compile_one(job["target"], job.get("opts", {}), shared)
+    return compile_one(job["target"], job.get("opts", {}), shared, job.get("later", ()))
 
 
 if __name__ == "__main__":
